@@ -24,7 +24,7 @@ LEVEL_TEXT = ("Three monitors on the real Weaver over random programs of up to 1
 LEVEL_NOTE = ("Programs respect each operation's documented precondition (tracked from the public state); sizes capped "
               "at 20000 samples; the global NumPy RNG is re-seeded identically before each noise step of the "
               "differential pair.")
-TECHNIQUE = "class-invariant monitor (icontract.invariant on the real Weaver) + write sanitizer on caller arrays + differential restored-vs-fresh monitor over random API programs"
+TECHNIQUE = "class-invariant monitor (icontract.invariant on the real Weaver) + write sanitizer on caller arrays + differential restored-vs-fresh monitor over random API programs; thread-isolation monitor (concurrent vs sequential answers, first-use rounds with sys.monitoring yield injection)"
 RULE = ("program = constructor variant (arrays / lists / int dtype / strided / read-only / from_2d_array / "
         "from_dataframe / x=None) + up to 6 random admissible mutators with read-only probes in between + "
         "restore_original + up to 5 further mutators applied to the restored object and to a fresh one. non-trivial: "
